@@ -4,6 +4,7 @@ import (
 	"fmt"
 	"math"
 	"sort"
+	"strings"
 
 	"pgregory.net/rapid"
 
@@ -872,4 +873,34 @@ func (g *G) idiom(d int, nest bool) *m.Node {
 	default: // between written out, and the real thing
 		return m.Op(g.alias("and", "or"), m.Op("between", x, li(), li()), m.Op(g.alias(">=", "<"), x.Clone(), li()))
 	}
+}
+
+// caseTwins renames one variable to the upper-case spelling of another one (b0 / B0): names are
+// case-sensitive, the two stay different variables with their own values. Call it after everything
+// that derives a type from a variable's name.
+func caseTwins(t *rapid.T, tree *m.Node, u *Universe) {
+	if len(u.Vars) < 2 || rapid.IntRange(0, 3).Draw(t, "casetwins") != 0 {
+		return
+	}
+	i := rapid.IntRange(0, len(u.Vars)-1).Draw(t, "twin_of")
+	j := rapid.IntRange(0, len(u.Vars)-2).Draw(t, "twin")
+	if j >= i {
+		j++
+	}
+	twin := strings.ToUpper(u.Vars[i].Name)
+	if twin == u.Vars[i].Name || u.Var(twin) != nil {
+		return
+	}
+	for _, c := range u.Consts {
+		if c.Name == twin {
+			return
+		}
+	}
+	old := u.Vars[j].Name
+	u.Vars[j].Name = twin
+	tree.Walk(func(x *m.Node) {
+		if x.Kind == m.KVar && x.Name == old {
+			x.Name = twin
+		}
+	})
 }
